@@ -110,6 +110,20 @@ class MeshDG:
     def element_finder(self, *args, **kwargs):
         raise NotImplementedError
 
+    # the inherited versions index the point array with vertex numbers
+
+    def _uniform(self, *args, **kwargs):
+        raise NotImplementedError
+
+    def _adaptive(self, *args, **kwargs):
+        raise NotImplementedError
+
+    def to_meshtri(self, *args, **kwargs):
+        raise NotImplementedError
+
+    def to_meshtet(self, *args, **kwargs):
+        raise NotImplementedError
+
     def draw(self, *args, **kwargs):
         from ..assembly import CellBasis
         return CellBasis(self, self.elem()).draw(*args, **kwargs)
